@@ -62,6 +62,7 @@ VARIABLES
   ho,          \* number of times each object has been handed out by get()
   orphan,      \* destroyed after the pool itself was gone (no manager to detach from)
   late,        \* task's get() started after close() returned, or was still waiting for a slot then
+  ticked,      \* the clock of task t was advanced during its current get() (at most once per call explored)
   budget, poolGone, closeRet, running, panicked
 
 sem   == <<permits, closed, waitq, handed>>
@@ -69,7 +70,7 @@ slots == <<idle, size, creating, maxSize, lock>>
 tv    == <<pc, obj, mode, cto, rto, arg, cnt, susp, res, chain>>
 ov    == <<rc, rec>>
 gv    == <<held, nextObj, alive, det, taken, ho, orphan, late, budget, poolGone, closeRet, panicked>>
-vars  == <<sem, slots, users, tv, ov, gv, running>>
+vars  == <<sem, slots, users, tv, ov, gv, running, ticked>>
 
 Min(a, b) == IF a < b THEN a ELSE b
 SeqSet(s) == {s[i] : i \in 1..Len(s)}
@@ -87,7 +88,7 @@ Init ==
   /\ held = [t \in Tasks |-> {}] /\ nextObj = 1 /\ alive = {} /\ det = [o \in Objs |-> 0]
   /\ taken = {} /\ ho = [o \in Objs |-> 0] /\ orphan = {} /\ late = [t \in Tasks |-> FALSE]
   /\ budget = Budget /\ poolGone = FALSE /\ closeRet = FALSE /\ running = NoTask
-  /\ panicked = FALSE
+  /\ panicked = FALSE /\ ticked = [t \in Tasks |-> FALSE]
 
 ----------------------------------------------------------------------------
 (* tokio semaphore: each public call is one atomic step                    *)
@@ -121,6 +122,7 @@ Goto(t, l) == pc' = [pc EXCEPT ![t] = l]
 \* Last conjunct of every task action (pc' and susp' are determined by then).
 Yielded(t) == pc'[t] = "idle" \/ pc'[t] = "g_wait" \/ susp'[t]
 Sched(t) ==
+  /\ ticked' = IF pc[t] = "idle" /\ pc'[t] = "g_users" THEN [ticked EXCEPT ![t] = FALSE] ELSE ticked
   /\ running \in {NoTask, t}
   /\ running' = IF ThreadLevel \/ Yielded(t) THEN NoTask ELSE t
 SetRes(t, r) == res' = [res EXCEPT ![t] = r]
@@ -310,6 +312,18 @@ Expire(t) ==
   /\ UNCHANGED <<sem, slots, users, obj, mode, cto, rto, arg, gv>>
   /\ Sched(t)
 
+\* time passes (any amount) for a get() that has no deadline at the stage it is suspended in:
+\* nothing happens.  (The harness advances the task's clock and polls the future.)
+Tick(t) ==
+  /\ HasRuntime
+  /\ \/ susp[t] /\ pc[t] = "create" /\ cto[t] = "none"
+     \/ susp[t] /\ pc[t] = "recycle" /\ rto[t] = "none"
+     \/ susp[t] /\ pc[t] \in {"pre", "post", "pcreate"}
+     \/ pc[t] = "g_wait" /\ mode[t] = "bl" /\ t \notin handed /\ ~closed
+  /\ ~ticked[t] /\ ticked' = [ticked EXCEPT ![t] = TRUE]
+  /\ UNCHANGED <<sem, slots, users, tv, ov, gv>>
+  /\ running \in {NoTask, t} /\ running' = NoTask
+
 \* lock; creating -= 1; size += 1; unlock
 CSize(t) ==
   /\ pc[t] = "c_size" /\ lock = NoTask
@@ -497,17 +511,32 @@ RtStatus(t) ==
   /\ UNCHANGED <<sem, slots, users, obj, mode, cto, rto, arg, cnt, susp, res, chain, ov, gv>>
   /\ Sched(t)
 
-\* lock; walk the idle queue; every object the predicate rejects is removed, detached
-\* and handed to the caller; size -= removed; unlock.  keep = the predicate's answers.
-RtWalk(t, keep) ==
-  /\ pc[t] = "rt_lock" /\ lock = NoTask /\ keep \subseteq SeqSet(idle)
-  /\ LET rm == SeqSet(idle) \ keep IN
-     /\ idle' = SelectSeq(idle, LAMBDA o : o \in keep)
-     /\ size' = size - Cardinality(rm)
-     /\ det' = [o \in Objs |-> IF o \in rm THEN det[o] + 1 ELSE det[o]]
-     /\ taken' = taken \cup rm /\ alive' = alive \ rm
-  /\ Goto(t, "idle")
-  /\ UNCHANGED <<sem, creating, maxSize, lock, users, obj, mode, cto, rto, arg, cnt, susp, res, chain, ov, held, nextObj, ho, orphan, late, budget, poolGone, closeRet, panicked>>
+\* lock; then the predicate (user code, possibly stateful) is called for one idle object after the
+\* other while the lock is held; every object it rejects is removed, detached and handed to the
+\* caller; size -= removed; unlock.
+RtLock(t) ==
+  /\ pc[t] = "rt_lock" /\ lock = NoTask
+  /\ IF idle = <<>>
+     THEN Goto(t, "idle") /\ UNCHANGED <<lock, cnt>>
+     ELSE Goto(t, "rt_pred") /\ lock' = t /\ cnt' = [cnt EXCEPT ![t] = 1]
+  /\ UNCHANGED <<sem, idle, size, creating, maxSize, users, obj, mode, cto, rto, arg, susp, res, chain, ov, gv>>
+  /\ Sched(t)
+
+\* the predicate's answer for the object at position cnt[t]
+RtPred(t, keep) ==
+  /\ pc[t] = "rt_pred" /\ lock = t /\ keep \in BOOLEAN
+  /\ LET i == cnt[t]
+         o == idle[i]
+         idle2 == IF keep THEN idle ELSE SubSeq(idle, 1, i - 1) \o SubSeq(idle, i + 1, Len(idle))
+         j == IF keep THEN i + 1 ELSE i IN
+     /\ idle' = idle2
+     /\ IF keep THEN UNCHANGED <<size, det, taken, alive>>
+        ELSE /\ size' = size - 1
+             /\ det' = [det EXCEPT ![o] = @ + 1] /\ taken' = taken \cup {o} /\ alive' = alive \ {o}
+     /\ IF j > Len(idle2)
+        THEN Goto(t, "idle") /\ lock' = NoTask /\ cnt' = [cnt EXCEPT ![t] = 0]
+        ELSE cnt' = [cnt EXCEPT ![t] = j] /\ UNCHANGED <<pc, lock>>
+  /\ UNCHANGED <<sem, creating, maxSize, users, obj, mode, cto, rto, arg, susp, res, chain, ov, held, nextObj, ho, orphan, late, budget, poolGone, closeRet, panicked>>
   /\ Sched(t)
 
 \* the last Pool handle is dropped (no operation in progress): idle objects are
@@ -515,7 +544,7 @@ RtWalk(t, keep) ==
 DropPool ==
   /\ AllowDropPool /\ ~poolGone /\ \A t \in Tasks : pc[t] = "idle"
   /\ poolGone' = TRUE /\ alive' = alive \ SeqSet(idle) /\ orphan' = orphan \cup SeqSet(idle) /\ idle' = <<>>
-  /\ UNCHANGED <<sem, size, creating, maxSize, lock, users, tv, ov, held, nextObj, det, taken, ho, late, budget, closeRet, panicked, running>>
+  /\ UNCHANGED <<sem, size, creating, maxSize, lock, users, tv, ov, held, nextObj, det, taken, ho, late, budget, closeRet, panicked, running, ticked>>
 
 ----------------------------------------------------------------------------
 Step(t) ==
@@ -523,7 +552,7 @@ Step(t) ==
   \/ GUsers(t) \/ GAcq(t) \/ GWaitPoll(t) \/ GWaitCancel(t) \/ GWaitExpire(t) \/ GPop(t)
   \/ \E out \in {"ok", "err", "panic", "susp"} : Call(t, out)
   \/ \E out \in {"ok", "err", "panic"} : Resume(t, out)
-  \/ Cancel(t) \/ Expire(t)
+  \/ Cancel(t) \/ Expire(t) \/ Tick(t)
   \/ CSize(t) \/ CUnres(t) \/ UDrop(t) \/ GExit(t) \/ XUsers(t)
   \/ \E o \in Objs : StartReturn(t, o) \/ StartTake(t, o)
   \/ RetUsers(t) \/ RetLock(t) \/ RetAdd(t)
@@ -531,7 +560,7 @@ Step(t) ==
   \/ \E n \in ResizeTargets : StartResize(t, n)
   \/ RsLock(t) \/ RsForget(t) \/ RsGrow(t)
   \/ StartClose(t) \/ ClLock(t)
-  \/ StartRetain(t) \/ RtStatus(t) \/ \E keep \in SUBSET Objs : RtWalk(t, keep)
+  \/ StartRetain(t) \/ RtStatus(t) \/ RtLock(t) \/ \E keep \in BOOLEAN : RtPred(t, keep)
 
 Next == (\E t \in Tasks : Step(t)) \/ DropPool
 
@@ -544,7 +573,7 @@ Progress(t) ==
   \/ GUsers(t) \/ GAcq(t) \/ GWaitPoll(t) \/ GPop(t) \/ Call(t, "ok") \/ Resume(t, "ok")
   \/ CSize(t) \/ CUnres(t) \/ UDrop(t) \/ GExit(t) \/ XUsers(t)
   \/ RetUsers(t) \/ RetLock(t) \/ RetAdd(t) \/ TkUsers(t) \/ TkLock(t) \/ TkAdd(t)
-  \/ RsLock(t) \/ RsForget(t) \/ RsGrow(t) \/ ClLock(t) \/ RtStatus(t) \/ RtWalk(t, SeqSet(idle))
+  \/ RsLock(t) \/ RsForget(t) \/ RsGrow(t) \/ ClLock(t) \/ RtStatus(t) \/ RtLock(t) \/ RtPred(t, TRUE)
 FairSpec == Spec /\ \A t \in Tasks : WF_vars(Progress(t)) /\ \A o \in Objs : WF_vars(StartReturn(t, o))
 
 ----------------------------------------------------------------------------
@@ -560,6 +589,7 @@ SiteOf(l) ==
     [] l = "tk_users" -> "m.take.users" [] l = "tk_lock" -> "m.take.lock" [] l = "tk_add" -> "m.take.add"
     [] l = "rs_lock" -> "m.resize.lock" [] l = "rs_forget" -> "m.resize.forget" [] l = "rs_grow" -> "m.resize.grow"
     [] l = "cl_lock" -> "m.close.lock"  [] l = "rt_status" -> "m.retain.status" [] l = "rt_lock" -> "m.retain.lock"
+    [] l = "rt_pred" -> "pred"
     [] OTHER -> l      \* idle, g_wait, and the call gates pre/recycle/post/create/pcreate
 
 ----------------------------------------------------------------------------
@@ -581,7 +611,7 @@ Blocked == {t \in Tasks : pc[t] = "g_wait" /\ t \notin handed /\ ~closed}
 \* no task can take a step without a decision of the environment
 Quiescent == \A t \in Tasks : pc[t] = "idle" \/ susp[t] \/ t \in Blocked
 AtRest == \A t \in Tasks : pc[t] = "idle"
-Resizing == \E t \in Tasks : pc[t] \in {"rs_lock", "rs_forget", "rs_grow", "cl_lock"}
+Resizing == \E t \in Tasks : pc[t] \in {"rs_lock", "rs_forget", "rs_grow", "cl_lock", "rt_pred"}
 
 \* what Pool::status() returns when called now (the slots lock must be free)
 StatusNow ==
